@@ -6,6 +6,14 @@ from jedi import debug
 from jedi import parser_utils
 
 
+def _remove_bound_param(param_names):
+    # ``self``/``cls`` is bound to the first parameter, except for signatures
+    # like ``def method(*args)``, where ``*args`` swallows it and stays.
+    if param_names and param_names[0].get_kind() == Parameter.VAR_POSITIONAL:
+        return param_names
+    return param_names[1:]
+
+
 class _SignatureMixin:
     get_param_names: Any
     name: Any
@@ -58,7 +66,7 @@ class AbstractSignature(_SignatureMixin):
     def get_param_names(self, resolve_stars=False):
         param_names = self._function_value.get_param_names()
         if self.is_bound:
-            return param_names[1:]
+            return _remove_bound_param(param_names)
         return param_names
 
     def bind(self, value):
@@ -103,7 +111,7 @@ class TreeSignature(AbstractSignature):
             from jedi.inference.star_args import process_params
             params = process_params(params)
         if self.is_bound:
-            return params[1:]
+            return _remove_bound_param(params)
         return params
 
     def matches_signature(self, arguments):
